@@ -18,7 +18,8 @@ from vf.gen import qdict as QD
 from vf.ref import convert as REF
 
 RULE = ("case = (plain Keras model description: Sequential or functional DAG "
-        "with Add/Concatenate, <= 8 layers, explicit weights) x (quantization "
+        "with Add/Concatenate/Multiply (squeeze-excite blocks), pooling layers "
+        "with keepdims / data_format options, <= 8 layers, explicit weights) x (quantization "
         "dictionary generated from that model: name / class / both / partial "
         "entries, activation strings or maps) x activation_bits 2..8 x "
         "transfer_weights x prefer_qadaptiveactivation x custom_objects form. "
@@ -51,7 +52,9 @@ ASSUMPTIONS = [
     "part runs in chunks of 30 Hypothesis examples until the budget ends; "
     "whatever is cut is counted under inconclusive_time, never as a failure",
     "an exception of model_quantize is attributed to the first selected layer "
-    "that reproduces it alone in a one-layer model (src_cls of the signature)",
+    "that reproduces it alone in a one-layer model (src_cls of the signature), "
+    "failing that to the first selected layer whose one-layer model converts "
+    "to another output shape",
     "hyper-parameters are compared on the keys the quantized class exposes in "
     "get_config(); initializer/constraint/regularizer keys that the Q class "
     "derives from the quantizers are compared against the directly "
@@ -79,6 +82,9 @@ REQUIRED_LABELS["quick"] += ["sel:QGRU", "sel:QBidirectional:QGRU",
                              "bidi_explicit_backward",
                              "bidi_explicit_backward_other_class",
                              "act:untouched_other", "act:untouched_lookalike"]
+REQUIRED_LABELS["quick"] += ["gap_keepdims_selected", "gap_keepdims_unselected",
+                             "gap_channels_first_selected",
+                             "pool_channels_first_selected", "se_block"]
 REQUIRED_LABELS["thorough"] = REQUIRED_LABELS["quick"] + [
     "unsel:LSTM", "unsel:Bidirectional", "two_outputs"]
 
@@ -218,7 +224,7 @@ def _attribute(case, model, pl, sig0):
   """Which single selected layer reproduces the exception on its own."""
   import tensorflow as tf  # pylint: disable=g-import-not-at-top
   from qkeras.utils import model_quantize  # pylint: disable=g-import-not-at-top
-  culprits = []
+  culprits, shape_changer = [], None
   for ld in case["model"]["layers"]:
     if len(ld["in"]) != 1 or not pl[ld["name"]]["selected"]:
       continue
@@ -231,16 +237,22 @@ def _attribute(case, model, pl, sig0):
     except Exception:  # pylint: disable=broad-except
       continue
     try:
-      model_quantize(sub, copy.deepcopy(case["qdict"]),
-                     case["activation_bits"],
-                     prefer_qadaptiveactivation=case.get("prefer_adaptive",
-                                                         False))
+      qsub = model_quantize(sub, copy.deepcopy(case["qdict"]),
+                            case["activation_bits"],
+                            prefer_qadaptiveactivation=case.get(
+                                "prefer_adaptive", False))
     except Exception as e2:  # pylint: disable=broad-except
       s2 = core.exc_signature(e2)
       if s2 == sig0:
         culprits.append(ld)
         break       # first culprit in layer order (deterministic)
-  return culprits[0] if culprits else None
+    else:
+      # converts alone, but with another output shape: the layers behind it
+      # are the ones that cannot be rebuilt
+      if shape_changer is None and norm(qsub.output_shape) != norm(
+          sub.output_shape):
+        shape_changer = ld
+  return culprits[0] if culprits else shape_changer
 
 
 def case_labels(case, pl, origin):
@@ -251,8 +263,10 @@ def case_labels(case, pl, origin):
   transfer = bool(case.get("transfer", False))
   labels = [origin, desc["api"], "rank%d" % (len(desc["input_shape"]) + 1),
             "layers:%d" % len(desc["layers"])]
-  if any(ld["cls"] in ("Add", "Concatenate") for ld in desc["layers"]):
+  if any(ld["cls"] in KM.MERGES for ld in desc["layers"]):
     labels.append("merge")
+  if any(ld["cls"] == "Multiply" for ld in desc["layers"]):
+    labels.append("se_block")
   if len(desc.get("outputs", [])) > 1:
     labels.append("two_outputs")
   labels.append("transfer" if transfer else "no_transfer")
@@ -261,6 +275,18 @@ def case_labels(case, pl, origin):
   n_sel = n_unsel = 0
   for ld in desc["layers"]:
     p = pl[ld["name"]]
+    # constructor options of the pooling / flatten layers that decide the
+    # output shape (keepdims, data_format)
+    how = "selected" if p["selected"] else "unselected"
+    if ld["cls"] == "GlobalAveragePooling2D":
+      if ld["kw"].get("keepdims"):
+        labels.append("gap_keepdims_" + how)
+      if ld["kw"].get("data_format") == "channels_first":
+        labels.append("gap_channels_first_" + how)
+    elif ld["cls"] in ("AveragePooling2D", "MaxPooling2D", "Flatten"):
+      if ld["kw"].get("data_format") == "channels_first":
+        labels.append("%s_channels_first_%s" % (
+            "flatten" if ld["cls"] == "Flatten" else "pool", how))
     if p["selected"]:
       n_sel += 1
       labels.append("sel:" + p["cls"])
@@ -640,6 +666,17 @@ def _templates():
   add(seq, "LSTM", {"units": 2, "activation": "leaky_relu"}, "Dense")
   add(vec, "Dense", {"units": 3, "activation": "relu"}, "Dense")
   add(vec, "Dense", {"units": 3, "activation": "softmax"}, "Dense")
+  # the constructor options of the pooling layers that decide the output shape
+  add(img, "GlobalAveragePooling2D", {"keepdims": True}, "Flatten")
+  add(img, "GlobalAveragePooling2D", {"keepdims": True,
+                                      "data_format": "channels_first"}, "Dense")
+  add(img, "GlobalAveragePooling2D", {"data_format": "channels_first"}, "Dense")
+  add(img, "GlobalAveragePooling2D", {"keepdims": False,
+                                      "data_format": "channels_last"}, "Dense")
+  add(img, "AveragePooling2D", {"pool_size": [2, 2],
+                                "data_format": "channels_first"}, "Flatten")
+  add(img, "AveragePooling2D", {"pool_size": [3, 2], "strides": [1, 2],
+                                "padding": "same"}, "Flatten")
   return t
 
 
@@ -707,6 +744,28 @@ def _dag_cases():
     out.append({"model": desc, "qdict": qd, "activation_bits": 6,
                 "transfer": tr, "prefer_adaptive": False,
                 "custom_objects": "empty"})
+  # squeeze-and-excite block: gap(keepdims=True) -> 1x1 conv -> Multiply
+  se_layers = [
+      {"name": "conv_a", "cls": "Conv2D", "kw": conv, "in": [KM.INPUT_NAME]},
+      {"name": "gap_1", "cls": "GlobalAveragePooling2D",
+       "kw": {"keepdims": True}, "in": ["conv_a"]},
+      {"name": "gate", "cls": "Conv2D",
+       "kw": {"filters": 2, "kernel_size": [1, 1], "activation": "sigmoid"},
+       "in": ["gap_1"]},
+      {"name": "mul_1", "cls": "Multiply", "kw": {}, "in": ["conv_a", "gate"]},
+      {"name": "flat", "cls": "Flatten", "kw": {}, "in": ["mul_1"]},
+      {"name": "fc", "cls": "Dense", "kw": {"units": 2}, "in": ["flat"]},
+  ]
+  se = {"api": "functional", "input_shape": [4, 4, 2], "layers": se_layers,
+        "outputs": ["fc"], "wseed": 12}
+  avg = {"average_quantizer": _A["average_quantizer"]}
+  for qd, tr in (({"QGlobalAveragePooling2D": avg, "QConv2D": full}, True),
+                 ({"gap_1": {"average_quantizer": _B["average_quantizer"]},
+                   "QGlobalAveragePooling2D": avg}, False),
+                 ({"QConv2D": full}, False)):
+    out.append({"model": se, "qdict": qd, "activation_bits": 4,
+                "transfer": tr, "prefer_adaptive": False,
+                "custom_objects": "none"})
   return out
 
 
